@@ -100,6 +100,7 @@ class Model:
         self.scanset = parse_scan(prog["scan"])
         self.last_fired = 0
         self._matcher_built = False
+        self.uses_advance = "'advance'" in repr(self.comps) or '"advance"' in repr(self.comps)
 
     def _build_matcher(self):
         # the match part is instantiated when the first line reaches it; named counters exist (at 0) from then on
@@ -510,12 +511,22 @@ class Model:
             self.setvar(name, cur + 1, key)
             return True
         if f == "last":
+            self.check_a1()
             return self.is_last_line
         if f == "failed":
             return not self.valid
         if f == "valid":
             return self.valid
         raise AssertionError("vote " + str(n))
+
+    def check_a1(self):
+        # A1: a scan window whose final line is a blank record (not the file's final record): the docs do not
+        # say whether last() fires; both readings are admissible, so such cases are not decided.
+        sl = self.scan_last()
+        if sl is not None and sl < len(self.rows) - 1 and len(self.rows[sl]) == 0:
+            raise Unspec("A1: scan window ends on a blank record")
+        if self.uses_advance:
+            raise Unspec("last() together with advance()")
 
     def equality(self, l, r_):
         for x in (l, r_):
@@ -724,8 +735,10 @@ class Model:
         votes = [None] * len(comps)
         interrupted = False
         control_idx = None
+        self.ran = []
+        f9 = "F9" in self.emulate
         for idx, c in enumerate(comps):
-            if self.stop_fired or self.skip_fired:
+            if (self.stop_fired or self.skip_fired) and not (f9 and any(om[:control_idx])):
                 interrupted = True
                 break
             if om[idx]:
@@ -733,10 +746,26 @@ class Model:
                     self.val(c[4])  # may raise Unspec / ExpErr: the value is computed whether or not the line matches
                 continue
             votes[idx] = self.comp_vote(c)
+            self.ran.append(idx)
             if (self.stop_fired or self.skip_fired) and control_idx is None:
                 control_idx = idx
-        if control_idx is not None and any(om[:control_idx] if True else []):
+        if control_idx is not None and any(om[:control_idx]):
             self.reached.add("F9")
+            if f9:
+                # known defect F9: the look-ahead of an earlier onmatch component has already run every
+                # other component (also those placed after the firing skip/stop); the line then fails
+                decided = [v for v, o in zip(votes, om) if not o]
+                if all(decided):
+                    self.match_count += 1
+                    order = [idx for idx in range(len(comps)) if om[idx]]
+                    if len(order) > 1:
+                        self.reached.add("F9b")
+                    if len(order) > 1 and "F9b" in self.emulate:
+                        order.reverse()
+                    for idx in order:
+                        self.comp_vote(strip_onmatch(comps[idx]))
+                        self.ran.append(idx)
+                return False
         if self.skip_fired:
             # a fired skip: the line does not match, later components did not run
             if control_idx == len(comps) - 1:
@@ -762,6 +791,7 @@ class Model:
                         order.reverse()
                 for idx in order:
                     self.comp_vote(strip_onmatch(comps[idx]))
+                    self.ran.append(idx)
         return rest
 
     # ------------------------------------------------------------ whole run
@@ -773,7 +803,8 @@ class Model:
             if self.stopped:
                 break
             res = self.run_line(i, line)
-            res.update({"pln": i, "vars": copy.deepcopy(self.vars), "valid": self.valid, "scan": self.scan_count, "match": self.match_count})
+            res.update({"pln": i, "vars": copy.deepcopy(self.vars), "valid": self.valid, "scan": self.scan_count, "match": self.match_count, "ran": list(getattr(self, "ran", [])), "fired": ("stop" if self.stop_fired else ("skip" if self.skip_fired else None))})
+            self.ran = []
             trace.append(res)
         return trace
 
